@@ -137,13 +137,15 @@ type world struct {
 	proper   bool
 	held     [nConns]bool // the caller holds the connection (fresh, or taken and not put back)
 	everPut  [nConns]bool
+	puts     [nConns]int // number of Put calls per connection
 	heldMark [nConns][2]int
 	liveEnt  [nConns]int
 
-	nc   int // connections the generator uses
-	toks []string
-	obs  []string
-	snap walkSnap
+	nc      int  // connections the generator uses
+	hostile bool // the generated caller may put connections it does not hold
+	toks    []string
+	obs     []string
+	snap    walkSnap
 
 	timerBetween bool // a timer phase took effect between two API calls
 	apiSeen      bool
@@ -328,6 +330,7 @@ func (w *world) put(k, v int) string {
 	now := time.Now()
 	panicked := w.api(func() { w.p.Put(k, c) })
 	w.everPut[v] = true
+	w.puts[v]++
 	w.held[v] = false
 	out := "ok"
 	if panicked {
@@ -424,7 +427,6 @@ func (w *world) cbClose(e int) string {
 		close(pk.a)
 		synctest.Wait()
 		w.noteTimer()
-		w.o.Stat("op:cbClose")
 	}
 	return "ok"
 }
@@ -436,7 +438,6 @@ func (w *world) cbRemove(e int) string {
 		close(pk.b)
 		synctest.Wait()
 		w.noteTimer()
-		w.o.Stat("op:cbRemove")
 	}
 	return "ok"
 }
@@ -491,8 +492,10 @@ func (w *world) exec(tok string) {
 		out = w.tick(num(tok[1:]))
 	case 'X':
 		out = w.cbClose(num(tok[1:]))
+		w.o.Stat("op:cbClose")
 	case 'R':
 		out = w.cbRemove(num(tok[1:]))
+		w.o.Stat("op:cbRemove")
 	case 'E', 'B', 'U':
 		out = w.env(tok[0], int(tok[1]-'0'))
 	default:
@@ -574,6 +577,19 @@ func (w *world) stepOracles() {
 	} else {
 		w.o.OracleOK("bounded")
 	}
+	// the pool (eviction, Close, negative capacity, expiry callback) closes a connection at most once
+	// per Put: an entry is closed by closeEntry or by its callback, never by both
+	okonce := true
+	for v, c := range w.conns {
+		if c.poolCloses+c.cbCloses > w.puts[v] {
+			okonce = false
+			w.fail("closed-at-most-once-per-put", fmt.Sprintf("connection %d: put %d times, closed %d times by the pool and %d times by expiry callbacks",
+				v, w.puts[v], c.poolCloses, c.cbCloses))
+		}
+	}
+	if okonce {
+		w.o.OracleOK("closed-at-most-once-per-put")
+	}
 	// a connection the caller holds is not closed by the pool, and is not cached
 	if w.proper {
 		okh := true
@@ -650,14 +666,6 @@ func inBubble(t *testing.T, o *corr.Out, cfg config, body func(w *world)) {
 	})
 }
 
-func script(t *testing.T, o *corr.Out, cfg config, toks string) {
-	inBubble(t, o, cfg, func(w *world) {
-		for _, tok := range strings.Split(toks, ",") {
-			w.exec(tok)
-		}
-	})
-}
-
 // candidates the caller may legitimately put: connections it holds
 func (w *world) heldConns() []int {
 	var hs []int
@@ -687,9 +695,12 @@ func (w *world) randomOp(nk, nc int) string {
 		case x < 34:
 			hs := w.heldConns()
 			var v int
-			if len(hs) == 0 || r.Intn(12) == 0 {
-				v = r.Intn(nc) // hostile: possibly a connection the caller does not hold
-			} else {
+			switch {
+			case w.hostile && r.Intn(5) == 0:
+				v = r.Intn(nc) // possibly a connection the caller does not hold
+			case len(hs) == 0:
+				continue
+			default:
 				v = hs[r.Intn(len(hs))]
 			}
 			return fmt.Sprintf("P%d%d", r.Intn(nk), v)
@@ -822,32 +833,52 @@ func enumerate(t *testing.T, o *corr.Out, cfg config, nsym, length int) {
 
 func suite(t *testing.T, o *corr.Out) {
 	// corpus: the scenarios of the repaired defects and their neighbours (regression oracles)
+	lastObs := func(w *world) string { return w.obs[len(w.obs)-1] }
 	for _, c := range []struct {
-		cfg  config
-		toks string
+		cfg   config
+		toks  string
+		name  string // regression oracle evaluated on the last observation
+		check func(last string) bool
 	}{
 		// expiry callback unlinks an entry that an eviction already unlinked (fixed 668dbb9)
-		{config{1, 1, true}, "P00,F0,P01,X0,R0,P02,T0"},
-		{config{1, 0, true}, "P00,F0,P01,X0,R0,P12,T0,T1"},
+		{config{1, 1, true}, "P00,F0,P01,X0,R0,P02", "regress-668dbb9-double-unlink",
+			func(l string) bool { return strings.HasPrefix(l, "ok~g:2#1|0:2#1|") }},
+		{config{1, 0, true}, "P00,F0,P01,X0,R0,P12,T0,T1", "", nil},
 		// ... that Take already unlinked
-		{config{2, 0, true}, "P00,P01,F0,T0,X0,R0,P02,P03,T0,T0"},
+		{config{2, 0, true}, "P00,P01,F0,T0,X0,R0,P02,P03,T0,T0", "", nil},
 		// Put evicts the last entry of the key it appends to (fixed 684e069)
-		{config{1, 0, false}, "P00,P01,T0"},
-		{config{1, 0, true}, "P00,P01,T0"},
-		{config{2, 0, false}, "P00,P11,P02,T0,T1"},
+		{config{1, 0, false}, "P00,P01,T0", "regress-684e069-put-orphans-entry",
+			func(l string) bool { return strings.HasPrefix(l, "v1~g:#0|0:#0|") }},
+		{config{1, 0, true}, "P00,P01,T0", "regress-684e069-put-orphans-entry",
+			func(l string) bool { return strings.HasPrefix(l, "v1~g:#0|0:#0|") }},
+		{config{2, 0, false}, "P00,P11,P02,T0,T1", "", nil},
 		// Close while a callback is pending, then reuse of the key (fixed 256f204)
-		{config{1, 0, true}, "P00,F0,C,P01,X0,R0,T0,P12,P13"},
-		{config{1, 0, true}, "P00,F0,X0,C,P01,R0,P12,P13,T1"},
-		{config{0, 0, true}, "P00,P01,F1,C,P02,X0,R0,X1,R1,T0"},
+		{config{1, 0, true}, "P00,F0,C,P01,X0,R0,T0", "regress-256f204-close-stale-callback",
+			func(l string) bool { return strings.HasPrefix(l, "v1~g:#0|0:#0|") }},
+		{config{1, 0, true}, "P00,F0,C,P01,X0,R0,P12,P13", "regress-256f204-close-stale-callback",
+			func(l string) bool { return strings.HasPrefix(l, "ok~g:3#1|0:-|1:3#1|") }},
+		{config{1, 0, true}, "P00,F0,X0,C,P01,R0,P12,P13,T1", "", nil},
+		{config{0, 0, true}, "P00,P01,F1,C,P02,X0,R0,X1,R1,T0", "", nil},
 		// negative capacities close what they are given
-		{config{-1, 0, false}, "P00,T0,P01"},
-		{config{0, -1, true}, "P00,T0,F0"},
+		{config{-1, 0, false}, "P00,T0,P01", "", nil},
+		{config{0, -1, true}, "P00,T0,F0", "", nil},
 		// blocked, closed and expired entries are skipped but unlinked only when unblocked
-		{config{0, 0, true}, "P00,P01,P02,B0,E1,F2,T0,U0,T0,T0"},
+		{config{0, 0, true}, "P00,P01,P02,B0,E1,F2,T0,U0,T0,T0", "", nil},
 		// the same connection put twice (a caller that breaks the protocol)
-		{config{0, 0, true}, "P00,P00,F0,T0,X0,R0,X1,R1,T0"},
+		{config{0, 0, true}, "P00,P00,F0,T0,X0,R0,X1,R1,T0", "", nil},
 	} {
-		script(t, o, c.cfg, c.toks)
+		inBubble(t, o, c.cfg, func(w *world) {
+			for _, tok := range strings.Split(c.toks, ",") {
+				w.exec(tok)
+			}
+			if c.check != nil {
+				if c.check(lastObs(w)) {
+					o.OracleOK(c.name)
+				} else {
+					w.fail(c.name, "last observation: "+lastObs(w))
+				}
+			}
+		})
 		o.Stat("scenario:corpus")
 	}
 
@@ -865,7 +896,7 @@ func suite(t *testing.T, o *corr.Out) {
 	}
 
 	// random scenarios
-	n := 2500
+	n := 6000
 	if o.Thorough {
 		n = 60000
 	}
@@ -881,8 +912,10 @@ func suite(t *testing.T, o *corr.Out) {
 		}
 		nk, nc := 1+o.Rand.Intn(nKeys), 2+o.Rand.Intn(nConns-1)
 		steps := 1 + o.Rand.Intn(30)
+		hostile := o.Rand.Intn(5) == 0
 		inBubble(t, o, cfg, func(w *world) {
 			w.nc = nc
+			w.hostile = hostile
 			for j := 0; j < steps; j++ {
 				w.exec(w.randomOp(nk, nc))
 			}
